@@ -88,85 +88,80 @@ theorem C06_signer_is_build (stakes : List (Nat × Nat)) (ls : List Signer)
         | none => .error .unregistered
         | some i => .ok (b, i) := signerPath_eq_build stakes ls hc self
 
-/-! ## The aggregator's epoch service (`MithrilEpochService`): model `RegService.step` -/
+/-! ## The aggregator's epoch service (`MithrilEpochService`): model `RegService.step` (code after the repairs
+df18c4ce4 and 9c9bc53d6; `RegService.beforeRepair` = the code before them, for the counter-examples only) -/
 open RegService in
-/-- **Cache coherence, every reachable state**: for EVERY history of store writes, prunes, `inform_epoch`,
+/-- **Cache coherence, EVERY operation sequence**: for every history of store writes, prunes, `inform_epoch`,
 `update_next_signers_with_stake` and `precompute_epoch_data` calls (any arguments, any results): whenever computed
-data is present the current key / multi-signer is the one of `current_signers_with_stake()`, and — unless the last
-`update_next_signers_with_stake` failed to build a multi-signer (ghost flag) — the next key / multi-signer is the one
-of `next_signers_with_stake()` -/
-theorem C06_service_invariant (ops : List Op) : Inv (run {} ops).1 := run_inv ops {} inv_init
-
-open RegService in
-/-- **Cache coherence**: for every history in which no `update_next_signers_with_stake` failed, whenever computed
-data is present: current AVK = AVK(current signers) and next AVK = AVK(next signers) (same for the multi-signers:
+data is present, current AVK = AVK(current signers) and next AVK = AVK(next signers) (same for the multi-signers:
 closed registration, every slot, total stake) -/
-theorem C06_service_coherent (ops : List Op) (hno : failedUpdate ops (run {} ops).2 = false) :
-    Coh (run {} ops).1 := run_coherent ops hno
+theorem C06_service_coherent (ops : List Op) : Coh (run prod {} ops).1 := run_coherent ops
 
 open RegService in
-/-- … and whatever happened before, every SUCCESSFUL `inform_epoch` / `update_next_signers_with_stake` /
-`precompute_epoch_data` leaves a coherent cache -/
-theorem C06_service_ok_coherent (s : St) (op : Op) {e : Nat}
-    (hop : op = .inform e ∨ op = .updateNext ∨ op = .precompute) (hok : (step s op).2 = .ok) :
-    Coh (step s op).1 := step_ok_coherent s op hop hok
+/-- **`next_signers()` and `total_next_stakes_signers()` are those of `next_signers_with_stake()`** after every
+operation sequence -/
+theorem C06_service_snapshot (ops : List Op) : SnapCoh (run prod {} ops).1 := run_snapshot ops
+
+open RegService in
+/-- both, as the invariant every single operation keeps from every state -/
+theorem C06_service_invariant (s : St) (op : Op) (h : Inv s) : Inv (step prod s op).1 := step_inv s op h
 
 open RegService in
 /-- the signer lists the service holds are honest lists in every reachable state (the store keeps one row per
 (epoch, party)) — so the order-independence theorems apply to them -/
-theorem C06_service_lists_honest (ops : List Op) {d : Data} (hd : (run {} ops).1.data = some d) :
+theorem C06_service_lists_honest (ops : List Op) {d : Data} (hd : (run prod {} ops).1.data = some d) :
     RegPaths.WF d.cur ∧ RegPaths.WF d.next := (run_dataWF ops {} dataWF_init).lists d hd
 
 open RegService in
 /-- **The aggregator's keys depend on the registration SET only, not on the call history**: two services reached by
-any two histories (no failed update), reporting next (current) signer lists that are permutations of each other,
-hold the same next (current) multi-signer: closed registration, every slot, total stake, aggregate key -/
-theorem C06_service_function_of_set (ops₁ ops₂ : List Op)
-    (h₁ : failedUpdate ops₁ (run {} ops₁).2 = false) (h₂ : failedUpdate ops₂ (run {} ops₂).2 = false)
-    {d₁ d₂ : Data} {c₁ c₂ : Computed}
-    (hd₁ : (run {} ops₁).1.data = some d₁) (hd₂ : (run {} ops₂).1.data = some d₂)
-    (hc₁ : (run {} ops₁).1.computed = some c₁) (hc₂ : (run {} ops₂).1.computed = some c₂) :
+ANY two histories, reporting next (current) signer lists that are permutations of each other, hold the same next
+(current) multi-signer: closed registration, every slot, total stake, aggregate key -/
+theorem C06_service_function_of_set (ops₁ ops₂ : List Op) {d₁ d₂ : Data} {c₁ c₂ : Computed}
+    (hd₁ : (run prod {} ops₁).1.data = some d₁) (hd₂ : (run prod {} ops₂).1.data = some d₂)
+    (hc₁ : (run prod {} ops₁).1.computed = some c₁) (hc₂ : (run prod {} ops₂).1.computed = some c₂) :
     (d₁.next.Perm d₂.next → c₁.next = c₂.next) ∧ (d₁.cur.Perm d₂.cur → c₁.cur = c₂.cur) :=
-  keys_function_of_set ops₁ ops₂ h₁ h₂ hd₁ hd₂ hc₁ hc₂
+  keys_function_of_set ops₁ ops₂ hd₁ hd₂ hc₁ hc₂
 
 open RegService in
 /-- **The real epoch offsets**: whatever state the service was in, after a successful `inform_epoch e` followed by
 `precompute_epoch_data` the current key is the key of the store's rows of epoch `e - 1` and the next key the key of the
 rows of epoch `e` — what a fresh service reports -/
-theorem C06_service_informed_keys (s : St) (e : Nat) (c : Computed) (h1 : (step s (.inform e)).2 = .ok)
-    (h2 : (step (step s (.inform e)).1 .precompute).1.computed = some c) :
+theorem C06_service_informed_keys (s : St) (e : Nat) (c : Computed) (h1 : (step prod s (.inform e)).2 = .ok)
+    (h2 : (step prod (step prod s (.inform e)).1 .precompute).1.computed = some c) :
     RegPaths.build (signersAt s.store (e - 1)) = .ok c.cur ∧ RegPaths.build (signersAt s.store e) = .ok c.next :=
   informed_keys s e c h1 h2
 
 open RegService in
-/-- **Live = fresh**: a coherent live service whose snapshot holds the store's present rows reports exactly what a
-fresh service, informed of the same epoch over the same store, computes -/
-theorem C06_service_live_is_fresh (s : St) (hcoh : Coh s) (d : Data) (c cf : Computed) (hd : s.data = some d)
-    (hc : s.computed = some c) (hcur : d.cur = signersAt s.store (d.epoch - 1)) (hnext : d.next = signersAt s.store d.epoch)
-    (h1 : (step { store := s.store } (.inform d.epoch)).2 = .ok)
-    (h2 : (step (step { store := s.store } (.inform d.epoch)).1 .precompute).1.computed = some cf) : c = cf :=
-  live_agrees_with_fresh s hcoh d c cf hd hc hcur hnext h1 h2
+/-- **Live = fresh**: a live service reached by ANY history whose snapshot holds the store's present rows reports
+exactly what a fresh service, informed of the same epoch over the same store, computes -/
+theorem C06_service_live_is_fresh (ops : List Op) (d : Data) (c cf : Computed)
+    (hd : (run prod {} ops).1.data = some d) (hc : (run prod {} ops).1.computed = some c)
+    (hcur : d.cur = signersAt (run prod {} ops).1.store (d.epoch - 1))
+    (hnext : d.next = signersAt (run prod {} ops).1.store d.epoch)
+    (h1 : (step prod { store := (run prod {} ops).1.store } (.inform d.epoch)).2 = .ok)
+    (h2 : (step prod (step prod { store := (run prod {} ops).1.store } (.inform d.epoch)).1 .precompute).1.computed = some cf) :
+    c = cf :=
+  live_agrees_with_fresh _ (run_coherent ops) d c cf hd hc hcur hnext h1 h2
 
-/-- full coherence (no side condition) is the goal … -/
-def C06_service_coherent_goal : Prop := RegService.coherent_goal
-/-- … which the code as it is does not meet: an update that cannot build the next multi-signer has already replaced
-`next_signers_with_stake` and leaves the previous key cached next to it (known finding C06-stale-after-failed-update) -/
-theorem C06_service_failed_update_counterexample : ¬ C06_service_coherent_goal :=
-  RegService.failed_update_counterexample
-/-- `update_next_signers_with_stake` refreshes `next_signers_with_stake` only: `next_signers` and
-`total_next_stakes_signers` keep what `inform_epoch` read (known finding C06-stale-next-signers) -/
-theorem C06_service_stale_snapshot_counterexample :
-    ∃ d, (RegService.run {} [.save ⟨1, 1, 7, 5⟩, .save RegService.rowA, .inform 2, .save RegService.rowB, .updateNext]).1.data = some d ∧
-      d.next.map (·.party) = [2, 1] ∧ d.nextSnap = [1] ∧ RegService.totalOf d.next = 11 ∧ d.totalNext = 5 :=
-  RegService.stale_snapshot_counterexample
+/-- before `fix:` 9c9bc53d6 an update that could not build the next multi-signer had already replaced
+`next_signers_with_stake` and left the previous key cached next to it: full coherence was false -/
+theorem C06_service_failed_update_counterexample_before_repair :
+    ¬ RegService.coherent_goal RegService.beforeRepair := RegService.failed_update_counterexample_before_repair
+/-- before `fix:` df18c4ce4 `update_next_signers_with_stake` refreshed `next_signers_with_stake` only: `next_signers`
+and `total_next_stakes_signers` kept what `inform_epoch` had read -/
+theorem C06_service_stale_snapshot_counterexample_before_repair :
+    ¬ RegService.snapshot_goal RegService.beforeRepair := RegService.stale_snapshot_counterexample_before_repair
+/-- … and the two witness histories on the code as it is -/
+theorem C06_service_repaired_examples :
+    (∃ d, (RegService.run RegService.prod {} RegService.histSnapshot).1.data = some d ∧ d.nextSnap = [2, 1] ∧ d.totalNext = 11) ∧
+    (RegService.run RegService.prod {} RegService.histFailedUpdate).1.data = some ⟨2, [⟨1, 1, 7, 5⟩], [⟨1, 1, 7, 5⟩], [1], 5, 5⟩ :=
+  RegService.repaired_examples
 
-/-- non-vacuity: a history that reaches computed data, with a registration arriving in between -/
-example : ∃ c, (RegService.run {} [.save ⟨1, 1, 7, 5⟩, .save ⟨2, 1, 7, 5⟩, .inform 2, .precompute]).1.computed = some c ∧
-    RegService.failedUpdate [.save ⟨1, 1, 7, 5⟩, .save ⟨2, 1, 7, 5⟩, .inform 2, .precompute]
-      (RegService.run {} [.save ⟨1, 1, 7, 5⟩, .save ⟨2, 1, 7, 5⟩, .inform 2, .precompute]).2 = false := by
-  refine ⟨⟨⟨[⟨5, 7⟩], 5⟩, ⟨[⟨5, 7⟩], 5⟩⟩, ?_, ?_⟩ <;>
-  simp [RegService.run, RegService.step, RegService.informed, RegService.precompute, RegPaths.build, RegPaths.regLoop, RegPaths.stakeOf,
-    closeReg, RegPaths.ofClose, close, RegService.signersAt, RegService.sameKey, RegService.totalOf, RegService.Row.signer,
-    RegService.failedUpdate]
+/-- non-vacuity: a history that reaches computed data -/
+example : ∃ c, (RegService.run RegService.prod {} [.save ⟨1, 1, 7, 5⟩, .save ⟨2, 1, 7, 5⟩, .inform 2, .precompute]).1.computed = some c := by
+  refine ⟨⟨⟨[⟨5, 7⟩], 5⟩, ⟨[⟨5, 7⟩], 5⟩⟩, ?_⟩
+  simp [RegService.run, RegService.step, RegService.informed, RegService.precompute, RegPaths.build, RegPaths.regLoop,
+    RegPaths.stakeOf, closeReg, RegPaths.ofClose, close, RegService.signersAt, RegService.sameKey, RegService.totalOf,
+    RegService.Row.signer]
 
 end C06
